@@ -165,6 +165,7 @@ class Session:
                 try:
                     qs.append(o.smt2_expanded(B))
                 except Exception as e:
+                    self.errors.append(f"{o.id}: bounded expansion failed: {type(e).__name__}: {e}")
                     qs.append("(assert false)(check-sat)")
             rs = discharge(qs, timeout_ms=self.timeout_ms, cross=False)
             nxt = []
@@ -434,7 +435,7 @@ def _run_task(i):
         extra = None
         v = getattr(fn, "ver", None)
         if v is not None:
-            extra = dict(fuc=dict(v.functions_under_contract), trace={k: set(map(str, s_)) for k, s_ in v.trace.items()})
+            extra = dict(fuc=dict(v.functions_under_contract), trace={k: set(map(str, s_)) for k, s_ in v.trace.items() if not k.startswith("_")})
         return "ok", [o.stub() for o in obls], extra
     except Unsupported as e:
         return "unsupported", str(e), None
